@@ -5,7 +5,7 @@ Inl(n, ty) == [opk |-> "inl", op |-> n, type |-> ty]
 Op(n, ty, b) == [name |-> n, type |-> ty, bulk |-> b, xp |-> NoX]
 X(q, dflt, cm) == [p |-> q, d |-> dflt, comma |-> cm]
 OpX(n, ty, x) == [name |-> n, type |-> ty, bulk |-> NoVal, xp |-> x]
-Doc(b, x, cnt, ti) == [base |-> b, ext |-> x, count |-> cnt, tidx |-> ti, tds |-> "", iaamd |-> "abs"]
+Doc(b, x, cnt, ti) == [base |-> b, ext |-> x, count |-> cnt, tidx |-> ti, tds |-> "", iaamd |-> "abs", burl |-> ""]
 
 \* ---- quick: exhaustive over small alphabets ----
 FormsAll == {"schedule", "challenge", "challenges"}
@@ -16,11 +16,14 @@ SeedTwo == [Seed0("challenges") EXCEPT !.chals = <<[@[1] EXCEPT !.dflt = "true"]
 SeedOps == [EmptyFile("schedule", "", Str("n1")) EXCEPT !.ops = <<Op("n1", "bulk", P("p1", 50))>>]
 SeedPar == [Seed0("challenge") EXCEPT !.chals[1].sched =
                <<[ParEl(BareTask(Str("bulk"))) EXCEPT !.wtp = L(5), !.tasks = Append(@, BareTask(Inl("", "force-merge")))]>>]
-SeedCorpus == [Seed0("schedule") EXCEPT !.indices = <<"i1">>, !.corpora = <<[name |-> "k1", tidx |-> "", tds |-> "", iaamd |-> "abs", docs |-> <<Doc("docs1", "bz2", L(10), "")>>]>>]
+SeedCorpus == [Seed0("schedule") EXCEPT !.indices = <<"i1">>, !.corpora = <<[name |-> "k1", burl |-> "", tidx |-> "", tds |-> "", iaamd |-> "abs", docs |-> <<Doc("docs1", "bz2", L(10), "")>>]>>]
 \* two indices, the corpus names the default target; the document set has none of its own
 SeedCorpus2 == [SeedCorpus EXCEPT !.indices = <<"i1", "i2">>, !.corpora[1].tidx = "i2"]
 SeedsOps == {SeedOps}
-SeedsAll == {Seed0(form) : form \in FormsAll} \cup {SeedTwo, SeedOps, SeedPar, SeedCorpus, SeedCorpus2}
+\* the parameter of the operation is also used by the task (so it is registered whatever happens to the operations part)
+SeedOps2 == [SeedOps EXCEPT !.chals[1].sched[1].tasks[1].clients = P("p1", 2)]
+\* (the single-challenge form "challenge" is covered by SeedPar)
+SeedsAll == {Seed0(form) : form \in {"schedule", "challenges"}} \cup {SeedTwo, SeedOps, SeedOps2, SeedPar, SeedCorpus, SeedCorpus2}
 TaskOpsQ == {Str("bulk"), Str("n1"), Inl("", "force-merge")}
 OpDefsQ == {Op("n1", "search", L(50)), Op("n1", "bulk", P("p1", 50)), Op("n2", "force-merge", NoVal),
             OpX("n2", "search", X("x1", 5, TRUE)), OpX("n1", "search", X("x1", Abs, FALSE))}
@@ -30,11 +33,11 @@ XUsesQ == {X("x1", 5, FALSE), X("x1", Abs, TRUE)}
 XUsesS == {X(q, dflt, cm) : q \in {"x1", "x2"}, dflt \in {Abs, 0, 5}, cm \in BOOLEAN}
 DocFilesQ == {Doc("docs1", "bz2", L(10), ""), Doc("docs2", "", P("p1", 10), "i1"), Doc("docs1", "", L(0), ""),
               [Doc("docs3", "", L(10), "") EXCEPT !.iaamd = "true"]}
-AlphaQ == [ibody |-> {3}, tbody |-> {1}, clients |-> {0, 2}, wi |-> {0}, it |-> {0, 3}, wtp |-> {5}, tp |-> {7}, ru |-> {5, 9}, tput |-> {4}, bulk |-> {50},
+AlphaQ == [mac |-> {7}, ibody |-> {3}, tbody |-> {1}, clients |-> {0, 2}, wi |-> {0}, it |-> {0, 3}, wtp |-> {5}, tp |-> {7}, ru |-> {5, 9}, tput |-> {4}, bulk |-> {50},
            cap |-> {1}]
 \* ---- thorough: one more thing written, wider alphabets ----
 TaskOpsT == {Str("bulk"), Str("n1"), Inl("", "force-merge"), Inl("n2", "my-op")}
-AlphaT == [ibody |-> {3}, tbody |-> {1}, clients |-> {0, 2}, wi |-> {0, 4}, it |-> {0, 3}, wtp |-> {0, 5}, tp |-> {0, 7}, ru |-> {5, 9}, tput |-> {4}, bulk |-> {50},
+AlphaT == [mac |-> {7}, ibody |-> {3}, tbody |-> {1}, clients |-> {0, 2}, wi |-> {0, 4}, it |-> {0, 3}, wtp |-> {0, 5}, tp |-> {0, 7}, ru |-> {5, 9}, tput |-> {4}, bulk |-> {50},
            cap |-> {0, 1}]
 ChalOpsQ == {Str("bulk")}
 TagSeqsQ == {<<"a", "b">>}
@@ -50,8 +53,8 @@ OpDefsS == {Op("n1", "search", L(50)), Op("n1", "bulk", P("p1", 50)), Op("n2", "
 DocFilesS == {Doc("docs1", "bz2", L(10), ""), Doc("docs2", "", P("p1", 10), "i1"), Doc("docs1", "", L(0), ""), Doc("docs3", "gz", P("p2", 500), ""),
               Doc("docs4", "", L(1000000), "i2"), [Doc("docs5", "gz", L(7), "") EXCEPT !.iaamd = "true"],
               [Doc("docs6", "", L(7), "") EXCEPT !.tds = "d1"]}
-AlphaS == [ibody |-> {3}, tbody |-> {1}, clients |-> {0, 1, 2, 8}, wi |-> {0, 100}, it |-> {0, 1, 1000}, wtp |-> {0, 5, 120}, tp |-> {0, 7, 3600}, ru |-> {0, 5, 9, 120},
+AlphaS == [mac |-> {7}, ibody |-> {3}, tbody |-> {1}, clients |-> {0, 1, 2, 8}, wi |-> {0, 100}, it |-> {0, 1, 1000}, wtp |-> {0, 5, 120}, tp |-> {0, 7, 3600}, ru |-> {0, 5, 9, 120},
            tput |-> {1, 40}, bulk |-> {50, 5000}, cap |-> {0, 1, 3}]
-AllFields == {"ibody", "tbody", "clients", "wi", "it", "wtp", "tp", "ru", "tput", "bulk", "cap"}
+AllFields == {"mac", "ibody", "tbody", "clients", "wi", "it", "wtp", "tp", "ru", "tput", "bulk", "cap"}
 TagSeqsS == {<<"a">>, <<"a", "b">>, <<"setup", "a", "b">>}
 ====
